@@ -36,6 +36,18 @@
 #include "scpi/scpi.h"
 #include "utils_private.h"
 
+#if defined(__has_feature)
+#if __has_feature(address_sanitizer)
+#include <sanitizer/asan_interface.h>
+#define HAVE_ASAN 1
+#endif
+#endif
+#ifndef HAVE_ASAN
+#define HAVE_ASAN 0
+#define ASAN_POISON_MEMORY_REGION(a, n) ((void) (a), (void) (n))
+#define ASAN_UNPOISON_MEMORY_REGION(a, n) ((void) (a), (void) (n))
+#endif
+
 #define PRE 8
 #define POST 16
 #define FILL 0xAA
@@ -197,9 +209,12 @@ static int do_call(const call_t * c) {
         for (k = 0; k < POST; k++) buf[len + k] = canary((long) len + k, salt);
         buf[len + POST] = 0;                                  /* stops a run-away strlen inside our own block */
     } else {
-        base = malloc(len);
+        /* ASan gives a malloc(0) block one addressable byte: for length 0 that byte is poisoned by hand, so that
+           buf[0] and buf[-1] both trap */
+        base = malloc(len ? len : 1);
         buf = base;
         if (len) memset(buf, FILL, len);
+        else if (base) ASAN_POISON_MEMORY_REGION(base, 1);
     }
     if (!base) { fprintf(stderr, "malloc failed\n"); _exit(4); }
 
@@ -257,6 +272,7 @@ static int do_call(const call_t * c) {
         rn += (size_t) snprintf(rec + rn, sizeof rec - rn, "]}\n");
         emit(rec, rn);
     }
+    if (!arena && !len) ASAN_UNPOISON_MEMORY_REGION(base, 1);
     free(base);
     if ((sh->ncalls & 1023) == 0) alarm(30);
     return 1;
@@ -296,7 +312,7 @@ static void over_lens(call_t * c, size_t L) {
         size_t cand[8], k, j, m = 0;
         cand[m++] = 0; cand[m++] = 1;
         if (L >= 1) cand[m++] = L - 1;
-        cand[m++] = L; cand[m++] = L + 1; cand[m++] = L + 2;
+        cand[m++] = L; cand[m++] = L + 1;
         cand[m++] = maxlen;
         cand[m++] = rnd((unsigned) maxlen + 1);
         for (k = 0; k < m; k++) {
@@ -475,7 +491,7 @@ static void gen_fmt(long nrandom, int custom_dtostre) {
     fresh();
 
     /* SCPI_NumberToStr: every unit of the table (and none, and an undefined one) x value classes */
-    for (u = 0; u <= (int) SCPI_UNIT_LITER + 1; u++) {
+    for (u = 0; u <= (int) SCPI_UNIT_LITER + 1; u += (custom_dtostre ? 4 : 1)) {   /* the units are build-independent: a quarter of them in the dtostre build */
         for (i = 0; i < sizeof nvals / sizeof nvals[0]; i++) {
             memset(&c, 0, sizeof c);
             c.api = "num"; c.d = nvals[i]; c.unit = u;
@@ -511,8 +527,8 @@ static void gen_fmt(long nrandom, int custom_dtostre) {
             }
         }
     }
-    /* SCPI_ParamCopyText: quoted texts with doubled quotes */
-    {
+    /* SCPI_ParamCopyText: quoted texts with doubled quotes (build-independent: default build only) */
+    if (!custom_dtostre) {
         static char texts[400][300];
         int nt = 0, q, n, k, nfixed;
         for (q = 0; q < 2; q++) {
